@@ -169,6 +169,21 @@ func fileMain(args []string) {
 			emit("keylen+short", full, 5, 0, false, false, readOutcome(h2, &w))
 			_ = os.WriteFile(path, orig, 0644)
 		}
+		// keys RELATED to the right one: the right key followed by more bytes (any length that is not a key size must
+		// be refused as such, 32 bytes made of a 16 byte key and padding is simply a wrong key), and its first 16 bytes
+		for _, extra := range []int{1, 8, 15, 16, 17, 32, 48} {
+			k2 := append(append([]byte{}, key...), bytes.Repeat([]byte{byte(extra)}, extra)...)
+			h2 := fileoperations.New(fileoperations.Config{WalletPath: path, WalletPasswd: hex.EncodeToString(k2)}, aeswrapper.New())
+			if len(k2) == 16 || len(k2) == 32 {
+				emit("wrongkey", full, full, 0, false, true, readOutcome(h2, &w))
+			} else {
+				emit("keylen", full, full, 0, false, false, readOutcome(h2, &w))
+			}
+		}
+		if keylen == 32 {
+			h2 := fileoperations.New(fileoperations.Config{WalletPath: path, WalletPasswd: hex.EncodeToString(key[:16])}, aeswrapper.New())
+			emit("wrongkey", full, full, 0, false, true, readOutcome(h2, &w))
+		}
 		// PEM round trip (not encrypted: identity of the key pair is the claim)
 		if err := h.SaveToPem(&w); err == nil {
 			w2, err := h.ReadFromPem()
@@ -250,7 +265,9 @@ func fileMain(args []string) {
 		wg.Wait()
 		for _, j := range jobs {
 			if j.err != nil {
-				fatal("concurrent save: %v", j.err)
+				// a save that fails because another save runs next to it: the wallet cannot be read back
+				emit("intact", j.full, j.full, 0, true, true, "error-save")
+				continue
 			}
 			emit("intact", j.full, j.full, 0, true, true, readOutcome(j.h, &j.w))
 		}
